@@ -34,7 +34,16 @@ def _check_encode(t: Tally, v: dict, data: bytes, reframed=True):
     t.evals += 1
     case = {"fields": v, "data_len": len(data)}
     try:
-        p = pk.create_ccsds_packet(data, **v)
+        # the data field is "bytes": also an instance of a bytes subclass (a packet being encapsulated, a parsed binary value)
+        form = t.evals % 5
+        if form == 3:
+            data_arg = pk.RawPacketData(data)
+        elif form == 4:
+            from space_packet_parser.common import BinaryParameter
+            data_arg = BinaryParameter(data)
+        else:
+            data_arg = data
+        p = pk.create_ccsds_packet(data_arg, **v)
     except Exception as e:  # noqa: BLE001
         t.violation({"kind": "encode-raised", "exc": type(e).__name__}, case, observed=str(e)[:200])
         return
